@@ -35,7 +35,7 @@ dumped tables; the thorough tier has ≈ 800 with the same proportions); **judge
 | phrase of the property text | theorems | status |
 |---|---|---|
 | "for every grammar the generator accepts" | — the generator runs for real on random CFGs / operator tables / declared-conflict / zoo grammars; operator tables: accepted iff `OpTable.resolvable` | judged (15 rejected tables, all unresolvable) |
-| the runtime's table walk is well defined (no pop below the base, no undefined goto, a root at accept) | `driver_no_fault` | partial: `tableClosed` — 202/202 (failing is a violation); the RAW table rows read by `rawLookup` (`small_table_lookup_first_group`) equal `ts_language_lookup` on every (state, symbol): 202/202 (failing is a violation) |
+| the runtime's table walk is well defined (no pop below the base, no undefined goto, a root at accept) | `driver_no_fault` | partial: `tableClosed` — 202/202 (failing is a violation); the RAW table rows read by `rawLookup` (`small_table_lookup_first_group`) equal `ts_language_lookup` on every (state, symbol): 202/202 (failing is a violation); no reduce action with a production id is longer than a row of `ts_alias_sequences` (`aliasRowOverrun`, judged per table) |
 | "reports no error on a string ⇒ the grammar derives it" | `driver_sound` (accepted tree is a tree over the productions the table spells), `parser_sound_per_grammar` (… ⇒ `DerivesTok g start toks`, ALL strings) | partial: `tableSafe ∧ relOK g tbl aux` (grammar read through `tokenView`, non-terminals renamed by `renameNT`: `parser_sound_renamed`) — 189/202 (in `relScope`, 175, failing is a violation); outside: judged per string (`check_memo_sound` on the real tree) |
 | "the grammar derives it ⇒ reports no error" | `table_complete_for_its_productions`, `grammar_covered_by_productions`, `parser_complete_per_grammar` (ALL strings of non-extra terminals; fuel existential) | partial: `coverOK ∧ completeOK` (`parser_complete_renamed`) — 70/202, i.e. 70 of the 99 random-CFG/zoo tables it is attempted on (for covered grammars without precedence and one action per cell, 18, failing is a violation); outside: judged per string (oracle up to L, generated sentences), except members lost to a statically resolved real LR(1) conflict (by design; counted) |
 | "exactly when" (both halves together) | `parser_recognises_exactly_its_grammar` : accepts ↔ `DerivesTok` | partial: all four validations (`…_up_to_names`) — 70/202 |
